@@ -1143,6 +1143,11 @@ impl SolarDay {
       m = m.next(-1);
       days += m.get_day_count() as isize;
     }
+    // 农历月的初一可能比同号的公历月早一个月以上（如公元9至23年），此时向后推移
+    while days >= m.get_day_count() as isize {
+      days -= m.get_day_count() as isize;
+      m = m.next(1);
+    }
     LunarDay::from_ymd(m.get_year(), m.get_month_with_leap(), (days + 1) as usize)
   }
 
